@@ -146,6 +146,47 @@ fn log_refusal(a: &Acct, size: usize, class_a: bool) {
     }
 }
 
+/// Where did the impossible request come from? Capture a backtrace (with this
+/// thread's accounting switched off, so the capture's own allocations are not
+/// simulated) and write the innermost `succinctly::` frames as one `SITE` line.
+fn log_site(c: &Cell<Acct>, a: &Acct) {
+    let fd = REFUSE_FD.load(Ordering::Relaxed);
+    if fd < 0 {
+        return;
+    }
+    let mut off = *a;
+    off.active = false;
+    c.set(off);
+    let text = std::backtrace::Backtrace::force_capture().to_string();
+    let mut frames: Vec<&str> = Vec::new();
+    for line in text.lines() {
+        let l = line.trim();
+        // "12: succinctly::jq::eval::arith_mul"
+        if let Some(pos) = l.find(": ") {
+            let name = &l[pos + 2..];
+            if name.starts_with("succinctly::") || name.starts_with("<succinctly::") {
+                frames.push(name);
+                if frames.len() == 4 {
+                    break;
+                }
+            }
+        }
+    }
+    let mut out = String::from("SITE ");
+    out.push_str(&a.trial.to_string());
+    out.push(' ');
+    out.push_str(&frames.join(" <- ").replace('\n', " "));
+    out.push('\n');
+    // SAFETY: write(2) of an owned buffer.
+    unsafe {
+        libc::write(fd, out.as_ptr().cast(), out.len());
+    }
+    drop(out);
+    drop(frames);
+    drop(text);
+    c.set(*a);
+}
+
 /// Returns false if the simulated machine refuses the request.
 #[inline]
 fn account_alloc(size: usize) -> bool {
@@ -166,6 +207,9 @@ fn account_alloc(size: usize) -> bool {
             a.last_class_a = class_a;
             c.set(a);
             log_refusal(&a, size, class_a);
+            if class_a {
+                log_site(c, &a);
+            }
             return false;
         }
         a.live += size;
